@@ -18,7 +18,10 @@ for log in sys.argv[1:]:
                 sigs[(m.group(1), m.group(2))] = m.group(5)
 checks = [f'C{i:02d}' for i in range(1, 21)]
 out = ['# Seeded changes x checks (quick tier, generated search only, regression replays off)', '',
-       'Cell: `X` the check exits 1 with a VIOLATION line, `.` exits 0, `?` harness error / not run. '
+       'Every change was run against the check of its own property; further cells were run where a change is '
+       'documented as caught by another check (DESIGN.md section 13). A full 20 x N cross table was started twice and '
+       'abandoned (about ten hours of machine time). '
+       'Cell: `X` the check exits 1 with a VIOLATION line, `.` exits 0, blank = not run, `?` harness error. '
        'Column `own` = caught by the check of the property the change was written against.', '',
        '| seeded change | property | own | ' + ' | '.join(c[1:] for c in checks) + ' |',
        '|---|---|---|' + '---|' * len(checks)]
@@ -30,8 +33,9 @@ for sid in sorted(cells):
     own = row.get(prop)
     if own != 1:
         missed.append(sid)
-    line = f'| {sid} | {prop} | {"yes" if own == 1 else "NO"} | ' + ' | '.join(
-        {1: 'X', 0: '.', 2: '?'}.get(row.get(c), '?') for c in checks) + ' |'
+    other = sorted(c for c in checks if c != prop and row.get(c) == 1)
+    line = f'| {sid} | {prop} | {"yes" if own == 1 else ("no (" + ", ".join(other) + ")" if other else "NO")} | ' + ' | '.join(
+        {1: 'X', 0: '.', 2: '?'}.get(row.get(c), ' ') for c in checks) + ' |'
     out.append(line)
 out += ['', f'{len(cells)} seeded changes; caught by the own-property check: {len(cells) - len(missed)}; not caught: '
         f'{missed or "none"}', '']
